@@ -1,0 +1,302 @@
+//! Verification hooks, compiled only with `--cfg rbp_verif`.
+//!
+//! `rusty-blockparser verif-hook <cmd>` answers one line per request line on stdin by calling
+//! the real functions of this crate in-process. Nothing in here is reachable without the cfg flag.
+#![cfg(rbp_verif)]
+
+use std::io::{self, BufRead, Cursor, Read, Seek, SeekFrom, Write};
+use std::panic::{self, AssertUnwindSafe};
+use std::str::FromStr;
+
+use bitcoin::hashes::{sha256d, Hash};
+use seek_bufread::BufReader;
+
+use crate::blockchain::parser::reader::{BlockchainRead, XorReader};
+use crate::blockchain::parser::types::CoinType;
+use crate::blockchain::parser::verif_access;
+use crate::blockchain::proto::block::{self, Block};
+use crate::blockchain::proto::script::{self, ScriptPattern};
+use crate::blockchain::proto::tx::RawTx;
+use crate::blockchain::proto::varuint::VarUint;
+use crate::blockchain::proto::ToRaw;
+use crate::common::utils;
+
+const COINS: [&str; 8] = [
+    "bitcoin",
+    "testnet3",
+    "namecoin",
+    "litecoin",
+    "dogecoin",
+    "myriadcoin",
+    "unobtanium",
+    "noteblockchain",
+];
+
+fn unhex(s: &str) -> Vec<u8> {
+    if s == "-" {
+        Vec::new()
+    } else {
+        utils::hex_to_vec(s)
+    }
+}
+
+fn hex(b: &[u8]) -> String {
+    if b.is_empty() {
+        String::from("-")
+    } else {
+        utils::arr_to_hex(b)
+    }
+}
+
+fn dump_block(b: &Block) -> String {
+    let mut s = String::new();
+    let h = &b.header.value;
+    s.push_str(&format!(
+        "H {} {} {} {} {} {} {} {} {} ",
+        b.header.hash,
+        h.version,
+        b.size,
+        h.prev_hash,
+        h.merkle_root,
+        h.timestamp,
+        h.bits,
+        h.nonce,
+        b.tx_count.value
+    ));
+    match &b.aux_pow_extension {
+        Some(a) => s.push_str(&format!(
+            "A {} {} {} {} {} {} {} ",
+            sha256d::Hash::hash(&raw_tx_bytes(&a.coinbase_tx)),
+            a.block_hash,
+            a.coinbase_branch.hashes.len(),
+            a.coinbase_branch.side_mask,
+            a.blockchain_branch.hashes.len(),
+            a.blockchain_branch.side_mask,
+            utils::arr_to_hex(&a.parent_block.to_bytes()),
+        )),
+        None => s.push_str("N "),
+    }
+    for tx in &b.txs {
+        let v = &tx.value;
+        s.push_str(&format!(
+            "T {} {} {} {} {} {} ",
+            tx.hash,
+            v.version,
+            v.locktime,
+            v.to_bytes().len(),
+            v.in_count.value,
+            v.out_count.value
+        ));
+        for i in &v.inputs {
+            s.push_str(&format!(
+                "I {} {} {} {} ",
+                i.outpoint.txid,
+                i.outpoint.index,
+                hex(&i.script_sig),
+                i.seq_no
+            ));
+        }
+        for o in &v.outputs {
+            s.push_str(&format!(
+                "O {} {} {} {} ",
+                o.out.value,
+                hex(&o.out.script_pubkey),
+                pattern_tag(&o.script.pattern),
+                o.script.address.clone().unwrap_or(String::from("-"))
+            ));
+        }
+    }
+    s.push_str(if b.verify_merkle_root().is_ok() {
+        "M1"
+    } else {
+        "M0"
+    });
+    s
+}
+
+fn raw_tx_bytes(tx: &RawTx) -> Vec<u8> {
+    let mut bytes = Vec::new();
+    bytes.extend(&tx.version.to_le_bytes());
+    bytes.extend(&tx.in_count.to_bytes());
+    for i in &tx.inputs {
+        bytes.extend(&i.to_bytes());
+    }
+    bytes.extend(&tx.out_count.to_bytes());
+    for o in &tx.outputs {
+        bytes.extend(&o.to_bytes());
+    }
+    bytes.extend(&tx.locktime.to_le_bytes());
+    bytes
+}
+
+fn pattern_tag(p: &ScriptPattern) -> String {
+    format!("{}", p).replace(' ', "_")
+}
+
+fn answer(cmd: &str, line: &str) -> String {
+    let mut it = line.split_whitespace();
+    match cmd {
+        "script" => {
+            let ver = u8::from_str_radix(it.next().unwrap(), 16).unwrap();
+            let bytes = unhex(it.next().unwrap_or("-"));
+            let s = script::eval_from_bytes(&bytes, ver);
+            let payload = match &s.pattern {
+                ScriptPattern::OpReturn(d) => hex(d.as_bytes()),
+                _ => String::from("-"),
+            };
+            format!(
+                "{} {} {}",
+                pattern_tag(&s.pattern),
+                s.address.unwrap_or(String::from("-")),
+                payload
+            )
+        }
+        "block" => {
+            let coin = CoinType::from_str(it.next().unwrap()).unwrap();
+            let size: u32 = it.next().unwrap().parse().unwrap();
+            let bytes = unhex(it.next().unwrap_or("-"));
+            let total = bytes.len() as u64;
+            let mut cur = Cursor::new(bytes);
+            match cur.read_block(size, &coin) {
+                Ok(b) => format!("ok {} {}", total - cur.position(), dump_block(&b)),
+                Err(_) => String::from("eof"),
+            }
+        }
+        "compactsize" => {
+            let bytes = unhex(it.next().unwrap_or("-"));
+            let mut cur = Cursor::new(bytes);
+            match VarUint::read_from(&mut cur) {
+                Ok(v) => format!("ok {} {} {}", v.value, hex(&v.to_bytes()), cur.position()),
+                Err(_) => String::from("eof"),
+            }
+        }
+        "varint" => {
+            let bytes = unhex(it.next().unwrap_or("-"));
+            match verif_access::read_varint(&bytes) {
+                Ok((n, used)) => format!("ok {} {}", n, used),
+                Err(_) => String::from("eof"),
+            }
+        }
+        "record" => {
+            let key = unhex(it.next().unwrap_or("-"));
+            let value = unhex(it.next().unwrap_or("-"));
+            match verif_access::decode_record(&key, &value) {
+                Ok(f) => format!("ok {}", f),
+                Err(_) => String::from("eof"),
+            }
+        }
+        "blkname" => {
+            let name = String::from_utf8(unhex(it.next().unwrap_or("-"))).unwrap();
+            match verif_access::parse_blk_index(&name) {
+                Some(n) => format!("some {}", n),
+                None => String::from("none"),
+            }
+        }
+        "xor" => {
+            let key = unhex(it.next().unwrap());
+            let cap: usize = it.next().unwrap().parse().unwrap();
+            let data = unhex(it.next().unwrap());
+            let key = if key.is_empty() { None } else { Some(key) };
+            let mut r = XorReader::new(BufReader::with_capacity(cap, Cursor::new(data)), key);
+            let mut outs = Vec::new();
+            for op in it {
+                let n: u64 = op[1..].parse().unwrap();
+                if op.starts_with('s') {
+                    r.seek(SeekFrom::Start(n)).unwrap();
+                } else {
+                    let mut buf = vec![0u8; n as usize];
+                    let mut got = 0;
+                    while got < buf.len() {
+                        let k = r.read(&mut buf[got..]).unwrap();
+                        if k == 0 {
+                            break;
+                        }
+                        got += k;
+                    }
+                    outs.push(hex(&buf[..got]));
+                }
+            }
+            outs.join("|")
+        }
+        "merkle" => {
+            let hashes: Vec<sha256d::Hash> = it
+                .map(|h| sha256d::Hash::from_slice(&unhex(h)).unwrap())
+                .collect();
+            hex(utils::merkle_root(hashes).as_byte_array())
+        }
+        "mean" => {
+            let v: Vec<u32> = it.map(|x| x.parse().unwrap()).collect();
+            format!("{:?}", utils::get_mean(&v))
+        }
+        "basereward" => {
+            let h: u64 = it.next().unwrap().parse().unwrap();
+            format!("{}", block::get_base_reward(h))
+        }
+        _ => panic!("unknown hook"),
+    }
+}
+
+pub fn dispatch() -> bool {
+    let args: Vec<String> = std::env::args().collect();
+    if args.len() < 3 || args[1] != "verif-hook" {
+        return false;
+    }
+    panic::set_hook(Box::new(|_| {}));
+    let cmd = args[2].as_str();
+    let out = io::stdout();
+    let mut out = io::BufWriter::new(out.lock());
+    match cmd {
+        "consts" => {
+            for name in COINS {
+                let c = CoinType::from_str(name).unwrap();
+                writeln!(
+                    out,
+                    "coin {} {} {} {} {} {}",
+                    name,
+                    c.name,
+                    c.magic,
+                    c.version_id,
+                    c.genesis_hash,
+                    c.aux_pow_activation_version
+                        .map_or(String::from("-"), |v| v.to_string())
+                )
+                .unwrap();
+            }
+        }
+        "mkindex" => {
+            let mut db =
+                rusty_leveldb::DB::open(&args[3], rusty_leveldb::Options::default()).unwrap();
+            for line in io::stdin().lock().lines() {
+                let line = line.unwrap();
+                let mut it = line.split_whitespace();
+                let k = unhex(it.next().unwrap());
+                let v = unhex(it.next().unwrap_or("-"));
+                db.put(&k, &v).unwrap();
+            }
+            db.flush().unwrap();
+        }
+        "dumpindex" => {
+            use rusty_leveldb::LdbIterator;
+            let mut db =
+                rusty_leveldb::DB::open(&args[3], rusty_leveldb::Options::default()).unwrap();
+            let mut it = db.new_iter().unwrap();
+            let (mut k, mut v) = (vec![], vec![]);
+            while it.advance() {
+                it.current(&mut k, &mut v);
+                writeln!(out, "{} {}", hex(&k), hex(&v)).unwrap();
+            }
+        }
+        _ => {
+            for line in io::stdin().lock().lines() {
+                let line = line.unwrap();
+                let r = panic::catch_unwind(AssertUnwindSafe(|| answer(cmd, &line)));
+                match r {
+                    Ok(s) => writeln!(out, "{}", s).unwrap(),
+                    Err(_) => writeln!(out, "PANIC").unwrap(),
+                }
+            }
+        }
+    }
+    out.flush().unwrap();
+    true
+}
